@@ -21,4 +21,24 @@ PROPS = {
     },
 }
 
+PROPS["C02"] = {
+    "ready": False,
+    "corr": "Model.Median.filter vs signalo_filters::median::Median::filter",
+    "rule": "Median<f64,N> on small integers (exact) and NaN: every complete history over {0,1,2}, {0,1,2,3} and {0,1,NaN,2} of the tier's length for N=1..6 (1..5 with NaN), outputs compared after every sample (so all prefixes are covered), plus seeded random long histories over small alphabets with runs, outliers and NaN for N up to 9 (16 thorough); cases are distinct spec lines; non-trivial = history longer than the window (evictions happen) AND a repeated value (ties), evaluated by Check/C02.v in Coq",
+    "trusted": ["f64 on integers |x| <= 2^53 is exact, NaN is the only incomparable value (modelled as None with all comparisons false)",
+                "Rust's >= and <= on the sample type are the same relation read in both directions"],
+    "assumptions": ["N >= 1", "lower-median clause: leb is a decidable total order; robustness clause: no assumption on leb"],
+    "level_text": "Theorems for every width N>=1, every history length and every sample type: the filter never panics and returns an element of the window (any comparison function); under a total order it returns the element of rank floor((m-1)/2) of the sorted last-m samples. Proved in Coq by an invariant over the pointer structure (ring buffer + sorted doubly linked list) and induction over the history; model tied to Median<f64,N> by differential execution evaluated in Coq.",
+    "level_note": "Trusted: Coq kernel/vm_compute; hand-written transliteration Model/Median.v (validated on explored cases only, exhaustive small scope); f64 on small integers exact.",
+}
+PROPS["C17"] = {
+    "ready": False,
+    "corr": "Model.Median.acc_{min,median,max} vs signalo_filters::median::Median::{min,median,max}",
+    "rule": "same generator as C02; the three accessors are read before the first sample and after every sample; non-trivial = history longer than the window AND a repeated value, evaluated by Check/C17.v in Coq",
+    "trusted": PROPS["C03"]["trusted"][:0] + ["f64 on small integers exact; NaN histories are only compared with the model (the property speaks about ordered windows)"],
+    "assumptions": ["N >= 1", "total order"],
+    "level_text": "Theorems on top of the C02 invariant: min() and median() return the smallest and the lower median of the window and all three return nothing before the first sample, for every N>=1 and history; max() is proved to return the newest sample, which is the window maximum exactly when the newest sample is a maximum (known finding, refuted in general by a machine-checked witness).",
+    "level_note": "Trusted: as C02. The max() clause is a known finding (KNOWN_FINDINGS.txt): violations inside the recorded class with exactly the recorded wrong value are reported as KNOWN-FINDING, anything else as VIOLATION.",
+}
+
 NOT_YET = {}
